@@ -542,6 +542,30 @@ func c16NewRun(ctx *Ctx, r *rand.Rand, idx int, base string) *c16Run {
 		h.pool[r.Intn(len(h.pool))] = long
 	}
 	h.ctxs = append([]string(nil), c16Contexts...)
+	giant := 0
+	if x := r.Intn(100); x < 8 {
+		// one text far longer than any line or token buffer a reader is likely to use (64 KiB, 1 MiB): as one unbroken word, or as words
+		giant = []int{65530, 65536, 65537, 70001, 140000}[r.Intn(5)]
+		if x == 0 {
+			giant = 1<<20 + 1 + r.Intn(5000)
+		}
+		var b strings.Builder
+		unbroken := r.Intn(2) == 0
+		for b.Len() < giant {
+			b.WriteString(vlib.RandWord(r))
+			if !unbroken {
+				b.WriteByte(' ')
+			}
+		}
+		t := b.String()[:giant]
+		if r.Intn(3) == 0 {
+			h.ctxs = append(h.ctxs, t)
+			h.ctxs = append(h.ctxs, t) // drawn more often
+		} else {
+			h.pool[r.Intn(len(h.pool))] = t
+		}
+		ctx.R.Path("runs-with-a-text-above-64KiB", 1)
+	}
 	if r.Intn(100) < 15 {
 		h.inval = true
 		h.pool[r.Intn(len(h.pool))] = c16Invalid[r.Intn(len(c16Invalid))]
@@ -560,6 +584,11 @@ func c16NewRun(ctx *Ctx, r *rand.Rand, idx int, base string) *c16Run {
 		nops = 30 + r.Intn(170)
 	default:
 		nops = 200 + r.Intn(401)
+	}
+	if giant > 1<<20 && nops > 40 {
+		nops = 40
+	} else if giant > 0 && nops > 120 {
+		nops = 120
 	}
 	last := -1
 	for i := 0; i < nops; i++ {
